@@ -158,18 +158,19 @@ fn duration_cases(rng: &mut Rng, tu: &TimeUnits, n_random: usize) -> Vec<MCase> 
             let (k, secs) = &tu.keys[rng.below(tu.keys.len())];
             let n = *rng.pick(&nums);
             if i > 0 {
-                text.push_str(*rng.pick(&[" ", "  "]));
+                text.push_str(*rng.pick(&[" ", "  ", " ", "\u{a0}", "\t", "\u{2009}"]));
             }
             let attached = rng.chance(1, 3);
             text.push_str(n);
             if !attached {
-                text.push(' ');
+                // any white space separates the number from its unit, also the no-break kinds that typography puts there
+                text.push_str(*rng.pick(&[" ", " ", " ", "\u{a0}", "\u{202f}", "\u{3000}"]));
             }
             text.push_str(k);
             parts.push((n.to_string(), *secs));
         }
         // a single attached pair like 30m / 2h is the HhMm form; skip those (covered above)
-        if np == 1 && !text.contains(' ') && (text.ends_with('h') || text.ends_with('m')) {
+        if np == 1 && !text.contains(char::is_whitespace) && (text.ends_with('h') || text.ends_with('m')) {
             continue;
         }
         // several attached h/m parts without blanks cannot occur (blank separated)
@@ -278,6 +279,10 @@ fn other_cases() -> Vec<MCase> {
         push(key, "<not a url>", None, nu(Some("<not a url>"), None), "bracketed_invalid_url");
         push(key, "https://rachel.url/r?x=1", None, nu(None, Some("https://rachel.url/r?x=1")), "valid_url");
         push(key, "smb://host/share", None, nu(None, Some("smb://host/share")), "valid_url");
+        // a URL that carries another URL after its scheme (archived page, redirect)
+        push(key, "https://web.archive.org/web/2019/https://example.com/apple-pie", None, nu(None, Some("https://web.archive.org/web/2019/https://example.com/apple-pie")), "valid_url");
+        push(key, "Grandma's blog <https://web.archive.org/web/2019/https://example.com/apple-pie>", None, nu(Some("Grandma's blog"), Some("https://web.archive.org/web/2019/https://example.com/apple-pie")), "name_valid_url");
+        push(key, "<https://r.example/go?to=http://x.example/a>", None, nu(None, Some("https://r.example/go?to=http://x.example/a")), "bracketed_valid_url");
         push(key, "<https://rachel.url>", None, nu(None, Some("https://rachel.url")), "bracketed_valid_url");
         push(key, "{name: Rachel, url: 'https://r.url'} (yaml)", Some("{name: Rachel, url: 'https://r.url'}"), nu(Some("Rachel"), Some("https://r.url")), "name_url_mapping");
         push(key, "{name: Rachel} (yaml)", Some("{name: Rachel}"), nu(Some("Rachel"), None), "name_url_mapping");
